@@ -29,7 +29,8 @@ def points(box):
     edge = [(minx, miny), (maxx, maxy), (minx, maxy), (maxx, miny), (minx, cy), (maxx, cy), (cx, miny), (cx, maxy)]
     outside = [(minx - 0.25, cy), (maxx + 0.25, cy), (cx, miny - 0.25), (cx, maxy + 0.25), (179.75, cy), (-179.75, cy),
                (cx, -89.5), (cx, 89.5)]
-    return inside, edge, outside
+    ok = lambda p: -90.0 <= p[1] <= 90.0 and -180.0 <= p[0] <= 180.0  # noqa: E731 - positions must be valid coordinates
+    return [p for p in inside if ok(p)], [p for p in edge if ok(p)], [p for p in outside if ok(p)]
 
 
 def loc_case(ctx, lon, lat, box, rmax, tag, boxkind) -> None:
@@ -59,7 +60,9 @@ def run(ctx) -> None:
     ctx.require("location.calls", 1000)
     ctx.require("location.fail_over_suspect_cases", 20)
     boxes = [("default", None), ("regular", list(BOX)), ("tuple", BOX), ("point", [5.0, 5.0, 5.0, 5.0]),
-             ("line", [-10.0, 0.0, 10.0, 0.0]), ("globe", [-180, -90, 180, 90]), ("int", [0, 0, 10, 10])]
+             ("line", [-10.0, 0.0, 10.0, 0.0]), ("globe", [-180, -90, 180, 90]), ("int", [0, 0, 10, 10]),
+             ("dateline-east", [170.0, -10.0, 180.0, 10.0]), ("dateline-west", [-180.0, -10.0, -170.0, 10.0]),
+             ("polar", [-20.0, 80.0, 20.0, 90.0])]
 
     def hops(lon, lat):
         return [models.geodist(lat[k - 1], lon[k - 1], lat[k], lon[k]) for k in range(1, len(lon))
